@@ -116,6 +116,10 @@ func loadWorld(repo, goos, goarch string) (*World, error) {
 	w.allFuncs = ssautil.AllFunctions(prog)
 	for fn := range w.allFuncs {
 		if w.InModule(fn) && fn.Blocks != nil {
+			// compiler-generated wrappers, bound-method closures and thunks carry no source of their own
+			if syn := fn.Synthetic; strings.Contains(syn, "wrapper") || strings.Contains(syn, "bound method") || strings.Contains(syn, "thunk") {
+				continue
+			}
 			w.modFuncs = append(w.modFuncs, fn)
 		}
 	}
